@@ -214,7 +214,10 @@ async def translate_request(scope, receive, send):
 
         environ[key] = hdr_value
 
-    environ['wsgi.url_scheme'] = environ.get('HTTP_X_FORWARDED_PROTO', 'http')
+    scheme = scope.get('scheme', 'http')
+    if scheme in ['ws', 'wss']:
+        scheme = 'http' + scheme[2:]
+    environ['wsgi.url_scheme'] = environ.get('HTTP_X_FORWARDED_PROTO', scheme)
     return environ
 
 
